@@ -190,11 +190,6 @@ theorem utf16Encode_lt : ∀ (s : List Nat), s.all isScalar = true → ∀ u ∈
         · omega
         · exact ih u hu
 
-/-- big-endian bytes of 16-bit units -/
-def unitBytes : List Nat → List Nat
-  | [] => []
-  | u :: r => u / 256 :: u % 256 :: unitBytes r
-
 theorem unitBytes_lt : ∀ (us : List Nat), (∀ u ∈ us, u < 65536) → ∀ b ∈ unitBytes us, b < 256
   | [], _, b, hb => by simp [unitBytes] at hb
   | u :: r, h, b, hb => by
